@@ -131,6 +131,7 @@ fn handle_put<R: Read, W: Write>(
         let mut tf = std::fs::File::create(&tmp)?;
         let mut limited = r.take(len);
         let mut buf = vec![0u8; 256 * 1024];
+        let mut streamed: u64 = 0;
         loop {
             let n = limited.read(&mut buf)?;
             if n == 0 {
@@ -138,8 +139,16 @@ fn handle_put<R: Read, W: Write>(
             }
             hasher.update(&buf[..n]);
             tf.write_all(&buf[..n])?;
+            streamed += n as u64;
         }
         tf.sync_all()?;
+        // The input ended before the declared length: never commit a short write,
+        // even if its hash happens to be the one the client declared.
+        if streamed != len {
+            drop(tf);
+            let _ = std::fs::remove_file(&tmp);
+            return write_frame(w, &Response::Error("content shorter than declared length".into()));
+        }
     }
     // Integrity: the streamed content must match the hash the client claimed.
     if *hasher.finalize().as_bytes() != hash {
